@@ -134,3 +134,79 @@ void bad_ct_alg__delegate__ep_mul_lwreg(ep_t r, const ep_t p, const bn_t k) {
 	}
 	ep_mul_monty(r, p, k);
 }
+
+/* the sign of a copy / reduction of the scalar is as public as the sign of the scalar */
+void ok_alg_sign__ep_mul_lwreg(ep_t r, const ep_t p, const bn_t k) {
+	bn_t _k, n;
+	bn_null(_k);
+	bn_null(n);
+	RLC_TRY {
+		bn_new(_k);
+		bn_new(n);
+		ep_curve_get_ord(n);
+		bn_abs(_k, k);
+		ep_mul_monty(r, p, _k);
+		if (bn_sign(_k) == RLC_NEG) {
+			ep_neg(r, r);
+		}
+		if (bn_sign(k) == RLC_NEG) {
+			ep_neg(r, r);
+		}
+	} RLC_CATCH_ANY {
+		RLC_THROW(ERR_CAUGHT);
+	} RLC_FINALLY {
+		bn_free(_k);
+		bn_free(n);
+	}
+}
+
+/* the signs of the sub-scalars of a decomposition depend on the value of the scalar: branching on them leaks */
+void bad_ct_alg__subscalar_sign__ep_mul_lwreg(ep_t r, const ep_t p, const bn_t k) {
+	bn_t n, k0, k1;
+	ep_t q;
+	bn_null(n);
+	bn_null(k0);
+	bn_null(k1);
+	ep_null(q);
+	RLC_TRY {
+		bn_new(n);
+		bn_new(k0);
+		bn_new(k1);
+		ep_new(q);
+		ep_curve_get_ord(n);
+		bn_rec_glv(k0, k1, k, n, ep_curve_get_v1(), ep_curve_get_v2());
+		ep_copy(q, p);
+		if (bn_sign(k0) == RLC_NEG) {
+			ep_neg(q, q);
+		}
+		ep_mul_monty(r, q, k0);
+	} RLC_CATCH_ANY {
+		RLC_THROW(ERR_CAUGHT);
+	} RLC_FINALLY {
+		bn_free(n);
+		bn_free(k0);
+		bn_free(k1);
+		ep_free(q);
+	}
+}
+
+/* the table entry is selected by masking its address: the copy reads from a secret-dependent address */
+void bad_ct_alg__address__ep_mul_lwreg(ep_t r, const ep_t p, const bn_t k) {
+	ep_t t[4];
+	int8_t reg[RLC_FP_BITS + 1];
+	size_t l = RLC_FP_BITS + 1;
+	uintptr_t e;
+	int j, n;
+	for (j = 0; j < 4; j++) {
+		ep_null(t[j]);
+		ep_new(t[j]);
+		ep_copy(t[j], p);
+	}
+	bn_rec_reg(reg, &l, k, RLC_FP_BITS, 3);
+	n = reg[0];
+	e = (uintptr_t)t[0];
+	for (j = 1; j < 4; j++) {
+		e = RLC_SEL(e, (uintptr_t)t[j], (uintptr_t)(j == n));
+	}
+	ep_copy(r, (const ep_st *)e);
+}
